@@ -174,7 +174,7 @@ def check(model, R, tier):
             if (name,) in seen:
                 continue
             seen.add((name,))
-            R.ob('C20.DEFASSIGN', f.qualname, '%s in `%s`' % (name, norm(st)[:60]), False,
+            R.ob('C20.DEFASSIGN', f.qualname, 'local `%s` read after a loop that may run zero times' % name, False,
                  'local `%s` may be unbound here: a loader with zero batches (len(dataset) < batch_size) runs the loop zero times -> UnboundLocalError' % name, '%s:%d' % (f.mod.relpath, st.lineno))
         if not ub:
             R.ob('C20.DEFASSIGN', f.qualname, 'all locals definitely assigned', True, '', f.loc)
